@@ -341,8 +341,11 @@ func (c *Collection) PullID(ctx context.Context, id string, opts ...ReadOption) 
 	send := make(chan *ValueChange)
 	go func() {
 		defer close(send)
+		defer verifAt("pid.exit", send)
 		for change := range c.Pull(ctx, opts...) {
+			verifAt("pid.got", send)
 			if change.Id != id {
+				verifAt("pid.skip", send)
 				continue
 			}
 
@@ -361,6 +364,7 @@ func (c *Collection) PullID(ctx context.Context, id string, opts ...ReadOption) 
 				return
 			case send <- &ValueChange{ChangeTime: change.ChangeTime, Value: change.NewValue, SeedValue: change.SeedValue, LastSeedValue: change.LastSeedValue}:
 			}
+			verifAt("pid.sent", send)
 		}
 	}()
 	return send
